@@ -4,7 +4,7 @@ import "time"
 
 //verif:witness H_C13_sequential end
 //verif:bound C13 quick one writer, 1..3 writes (plus Start), every clock reading an arbitrary non-decreasing instant (mathematical integers, 2^30 <= t < 2^40 s), interval 1 s / 2 s / 10 min; optional Stop/Start cycle before the writes
-//verif:bound C13 thorough one writer, 1..5 writes, otherwise as quick
+//verif:bound C13 thorough one writer, 1..4 writes, otherwise as quick
 //verif:assume C13 time.Format output is an opaque 14-digit text with the axiom: equal seconds <=> equal text
 //verif:assume C13 file-system model: OpenFile/Write/Close of os.File with O_APPEND/O_CREATE/O_TRUNC interpreted; one write(2) per Write call, whole
 //verif:assume C13 concurrent writers racing with a boundary are explored by H_C13_concurrent under the stall rule of DESIGN.md; a writer suspended inside Write across a whole interval is outside the claim
@@ -83,7 +83,7 @@ func H_C13_sequential() {
 	m := &vRollModel{interval: int64(iv / time.Second)}
 	maxW := 3
 	if vTier() > 0 {
-		maxW = 5
+		maxW = 4
 	}
 	r := vClockCount()
 	if err := app.Start(); err != nil {
